@@ -1,19 +1,35 @@
 /- GENERATED: instance obligations for one logic, discharged by kernel evaluation.
-   `X ⊆ known`: every failing row is a committed known finding (Ptx/Gen/Known.lean). -/
+   `S` = the logic with its DOCUMENTED tables (Ptx/Sem/Spec.lean); rules, closure, trunk and frames
+   are what the translator read off the code.  `X ⊆ known`: every failing row is a committed
+   known finding (Ptx/Gen/Known.lean, generated from known_findings.json). -/
 import Ptx.Gen.L_TLP
 import Ptx.Gen.Known
 import Ptx.Sem.Subset
+import Ptx.Props.C01
+import Ptx.Gen.L_LP
 namespace Ptx.Gen.Obl.TLP
 open Ptx
 
-theorem tables_total : Gen.TLP.tablesTotalB = true := by decide +kernel
-theorem rules_exact : subsetB Gen.TLP.badRules (Known.badRules "TLP") = true := by decide +kernel
-theorem rules_sound : subsetB Gen.TLP.unsoundRules (Known.unsoundRules "TLP") = true := by decide +kernel
-theorem rules_total : subsetB Gen.TLP.missingRules (Known.missingRules "TLP") = true := by decide +kernel
-theorem rules_local : Gen.TLP.nonLocalRules = [] := by decide +kernel
-theorem closure_total : Gen.TLP.closureTotalB = true := by decide +kernel
-theorem closure_exact : subsetB Gen.TLP.badClosure (Known.badClosure "TLP") = true := by decide +kernel
-theorem read_total : Gen.TLP.readTotalB = true := by decide +kernel
-theorem read_exact : subsetB Gen.TLP.badRead (Known.badRead "TLP") = true := by decide +kernel
+/-- a modal / first-order extension has exactly the truth-functional tables of its base (LP) -/
+theorem base_tables : Gen.TLP.tables.sameTF Gen.LP.tables = true := by decide +kernel
+theorem spec_defined : Gen.TLP.specDefinedB = true := by decide +kernel
+theorem tables_spec : subsetB Gen.TLP.tableDiff (Known.tableDiff "TLP") = true := by decide +kernel
+theorem defined_ops : Gen.TLP.tables.definedOpsBad = [] := by decide +kernel
+theorem tables_total : Gen.TLP.sem.tablesTotalB = true := by decide +kernel
+theorem rules_exact : subsetB Gen.TLP.sem.badRules (Known.badRules "TLP") = true := by decide +kernel
+theorem rules_sound : subsetB Gen.TLP.sem.unsoundRules (Known.unsoundRules "TLP") = true := by decide +kernel
+theorem rules_total : subsetB Gen.TLP.sem.missingRules (Known.missingRules "TLP") = true := by decide +kernel
+theorem rules_local : Gen.TLP.sem.nonLocalRules = [] := by decide +kernel
+theorem closure_total : Gen.TLP.sem.closureTotalB = true := by decide +kernel
+theorem closure_exact : subsetB Gen.TLP.sem.badClosure (Known.badClosure "TLP") = true := by decide +kernel
+theorem read_total : Gen.TLP.sem.readTotalB = true := by decide +kernel
+theorem read_exact : subsetB Gen.TLP.sem.badRead (Known.badRead "TLP") = true := by decide +kernel
+theorem sound_core : Gen.TLP.sem.soundCoreB = true := by decide +kernel
+
+/-- C01 for this logic: a closed tableau reached by any legal derivation has no countermodel. -/
+theorem c01_valid_sound (arg : Argument) (t : Tableau)
+    (hd : Deriv Gen.TLP.sem.soundPart.noQuantPart (trunk Gen.TLP.sem arg) t) (hclosed : t.allClosed = true)
+    (M : Struct) (hM : M.Interp Gen.TLP.sem) (e : Env M.D) (w0 : M.W) : ¬ Countermodel Gen.TLP.sem M e w0 arg :=
+  Props.C01.C01_valid_sound_partial Gen.TLP.sem sound_core arg t hd hclosed M hM e w0
 
 end Ptx.Gen.Obl.TLP
